@@ -72,6 +72,18 @@ func main() {
 				}
 			}
 		}
+		// DateTime edges: what time.Time.UnmarshalText (time.Parse(RFC3339), strict re-check switched
+		// off in go 1.23) accepts and refuses; every spelling of DateTime for each
+		for i, str := range dateTimeEdges {
+			site := "field"
+			if i%4 == 3 {
+				site = "directive"
+			}
+			for _, c := range spellings(N("DateTime"), lStr(str), site) {
+				c := c
+				h.Case(func(*rng.R) sexp.Node { return c.run() })
+			}
+		}
 		// random part
 		n := 6000
 		if h.Thorough() {
@@ -113,4 +125,17 @@ func corpus() []*Case {
 			VarDefs: []VarDef{{"s", L(NN(L(N("Int")))), nil}}, Args: []LField{{"x", lVar("s")}},
 			Vars: map[string]interface{}{"s": []interface{}{1.0}}},
 	}
+}
+
+var dateTimeEdges = []string{
+	"2020-01-02T3:04:05Z",       // one-digit hour: Parse's "15" takes one or two digits
+	"2020-01-02T3:4:05Z",        // but minutes need two
+	"2020-02-29T00:00:00Z", "2021-02-29T00:00:00Z", "1900-02-29T00:00:00Z", "2000-02-29T00:00:00Z",
+	"2020-04-31T00:00:00Z", "2020-13-01T00:00:00Z", "2020-00-10T00:00:00Z", "2020-01-00T00:00:00Z",
+	"2020-01-32T00:00:00Z", "2020-01-02T03:60:05Z", "2020-01-02T23:59:59Z", "2020-01-02T03:04:05+24:60",
+	"2020-01-02T03:04:05+24:61", "2020-01-02T03:04:05+25:00", "2020-01-02T03:04:05+0800", "2020-01-02T03:04:05",
+	"2020-01-02T03:04:05Zx", "2020-01-02T03:04:05.Z", "2020-01-02T03:04:05.5", "+020-01-02T03:04:05Z",
+	"2020-01-02T03:04:05 Z", "2020-1-02T03:04:05Z", " 2020-01-02T03:04:05Z", "2020-01-02T03:04:05z",
+	"2020-01-02T03:04:05*08:00", "2020-01-02T03:04:05+08-00", "2020-01-02T03:04:05.000000000000000000001Z",
+	"20200-01-02T03:04:05Z", "2020-01-02", "",
 }
